@@ -27,10 +27,10 @@ func init() {
 		Rule: "seeded federation runs: genuine encrypted responses (Response / assertion / both signed) and attacker-encrypted plaintexts (forged, attacker-signed, cut from a signed Response, non-assertion, garbage) under every algorithm, placed directly, beside a genuine assertion or nested; embedded recipient certificate absent / SP's / foreign; " +
 			"SP key by field / TLS field / setter / both; ValidateEncryptionCert on/off with the SP clock enumerated on the SP certificate's NotBefore/NotAfter +/- {0,1ns,1s}; key stores handing out an empty or unparsable certificate or failing; " +
 			"oracle: conservation over the issue log, nested => error, foreign recipient => error, option on => accept only inside the window with a parsable certificate, option off => same as plaintext twin; distinct = shape hash of those knobs and the outcome",
-		Directed:   c07Directed,
-		Run:        c07Run,
-		MustHit:    []string{"mode=genuine", "mode=attacker-encrypt", "mode=nested-unsigned-response", "mode=nested-signed-by-nonconforming-idp", "embed=foreign", "embed=sp", "clock=nb-1ns", "clock=nb", "clock=na", "clock=na+1ns", "validate_on", "validate_off", "keyfault=empty-cert", "keyfault=garbage-cert", "keyfault=keystore-error", "key=setter", "key=field", "key=tls"},
-		RandomRuns: map[string]int{"quick": 1200, "thorough": 60000},
+		Directed:    c07Directed,
+		Run:         c07Run,
+		MustHit:     []string{"mode=genuine", "mode=attacker-encrypt", "mode=nested-unsigned-response", "mode=nested-signed-by-nonconforming-idp", "embed=foreign", "embed=sp", "clock=nb-1ns", "clock=nb", "clock=na", "clock=na+1ns", "validate_on", "validate_off", "keyfault=empty-cert", "keyfault=garbage-cert", "keyfault=keystore-error", "key=setter", "key=field", "key=tls"},
+		RandomRuns:  map[string]int{"quick": 1200, "thorough": 60000},
 		Assumptions: []string{"encrypted layouts run with signature checking on (with checking off the library never decrypts)"},
 	})
 }
